@@ -1061,3 +1061,17 @@ func (ss *SpecSet) lookupFunc(name, pkg string) *SpecFunc {
 	}
 	return found
 }
+
+// allClauses: every requires / ensures / invariant / decreases clause of the contract.
+func (c *Contract) allClauses() []*Clause {
+	var out []*Clause
+	out = append(out, c.Requires...)
+	out = append(out, c.Ensures...)
+	for _, ls := range c.Loops {
+		out = append(out, ls.Invariants...)
+		if ls.Decreases != nil {
+			out = append(out, ls.Decreases)
+		}
+	}
+	return out
+}
